@@ -20,7 +20,7 @@ RULE += ' Round 5: negative mask flag values for djs_maskinterp.'
 ASSUMPTIONS = ['djs_reject: maxrej/groupsize/groupdim/groupbadpix are not part of the statement and not generated; sigma or invvar is always supplied; a scalar sigma is > 0, a sigma array may contain exact zeros (zero-width band)',
                'xval values are distinct within a line',
                'the SPPIXMASK bit table is installed by the harness per case (bits below the sign bit of the mask dtype)',
-               'median widths are odd; 1-D: up to 2n-1 (what one reflection of the array covers), 2-D: up to the smaller axis']
+               'median widths are odd; 1-D: up to 2n-1 (what one reflection of the array covers), 2-D: up to 2 x the smaller axis - 1']
 
 uf = st.floats(-1.0, 1.0, allow_nan=False)
 
@@ -207,7 +207,8 @@ def median_case(draw):
         w = draw(st.sampled_from([x for x in range(3, 2 * shape[0], 2)] + [2 * shape[0] - 1, 2 * shape[0] - 1]))
     else:
         shape = [draw(st.integers(3, 12)), draw(st.integers(3, 12))]
-        w = draw(st.sampled_from([x for x in range(3, min(shape) + 1, 2)] or [3]))
+        # (round 12: as in 1-D, one reflection covers every window up to 2 x the smaller axis - 1, also windows wider than the larger axis)
+        w = draw(st.sampled_from([x for x in range(3, 2 * min(shape), 2)] or [3]))
     vals = [float(draw(st.integers(-5, 5))) if draw(st.booleans()) else 10 * draw(uf) for _ in range(int(np.prod(shape)))]
     return dict(shape=shape, width=w, vals=vals)
 
